@@ -10,7 +10,7 @@ EXTENDS Integers, FiniteSets, Sequences, TLC, Json
 SetsF == {44, 65, 87}
 Configs == { [sets |-> s, rng |-> r, dudect |-> d] : s \in (SUBSET SetsF) \ {{}}, r \in BOOLEAN, d \in BOOLEAN }
 \* public items of a configuration
-Items(c) == { << "module", s >> : s \in c.sets }
+Items(c) == { << "module", s >> : s \in c.sets } \cup { << "reexport", n >> : n \in {"CryptoRng", "RngCore", "RngError", "Ph"} }   \* in every configuration
             \cup { << "keygen_from_seed", s >> : s \in c.sets } \cup { << "try_keygen_with_rng", s >> : s \in c.sets }
             \cup { << "try_sign_with_rng", s >> : s \in c.sets } \cup { << "verify", s >> : s \in c.sets }
             \cup { << "_internal_sign", s >> : s \in c.sets }
